@@ -1879,6 +1879,11 @@ func (h *fsHandler) newCompressedFSFile(filePath, fileEncoding string) (*fsFile,
 
 func (h *fsHandler) openFSFile(filePath string, mustCompress bool, fileEncoding string) (*fsFile, error) {
 	filePathOriginal := filePath
+	if filePath == h.root {
+		// The root itself can only be a directory. Appending the compressed
+		// file suffix to it would name a sibling of the root, outside of it.
+		mustCompress = false
+	}
 	if mustCompress {
 		filePath += h.compressedFileSuffixes[fileEncoding]
 	}
